@@ -304,4 +304,11 @@ def checkGood (p : Program) : Bool :=
   (match diagnose p.commGraph with | .ok _ => true | .error _ => false)
   && (List.range p.length).all fun r => rankGoodB (p.rank r) r
 
+/-- user names (inputs, overall outputs) live below `base`; output names are distinct -/
+def checkNames (base : Nat) (p : Program) : Bool :=
+  (List.range p.length).all fun r =>
+    let s := p.rank r
+    s.outputs.all (fun o => decide (o.1 < base)) && (userNames s).all (fun n => decide (n < base))
+    && decide (s.outputs.map (·.1)).Nodup
+
 end Pt.Dist
